@@ -278,6 +278,13 @@ func (s *Server[StateT]) handleWriteFile(ctx *Context[StateT]) error {
 	}
 
 	written, err := s.Handler.HandleWriteFile(ctx, data)
+
+	// the announced payload belongs to this request: consume what the handler left unread
+	// (write refused or failed), otherwise it would be parsed as the next commands
+	if _, drainErr := io.Copy(io.Discard, data); drainErr != nil {
+		return fmt.Errorf("drain file data to write failed: %w", drainErr)
+	}
+
 	if err != nil {
 		return ctx.wr.SendWriteFileError()
 	}
